@@ -85,7 +85,20 @@ def enum_units(tier, seed):
                       {"k": "block", "b": [db(L(0xEE)), {"k": "label", "n": "kx_a"}] + deep + [db(L(0xDD))]},
                       db(["bin", "&", ["id", "kx_a"], L(0xFF)])]
                 cases.append({"rom": "low", "files": {}, "ir": ir, "twin_seed": 1})
-    return {"units": [{"cases": cases}], "exhaustive": False}
+    # a name defined in a non-top-level scope and referenced many levels below it, while the top level defines the same
+    # name with another value: the nearest enclosing definition wins at any distance
+    for depth in (3, 9, 16, 17, 18, 31, 32, 33, 34, 40, 70):
+        for kinds in (("block",), ("block", "scope", "if", "for"), ("for", "block")):
+            inner = [db(["id", "kx_deep"]), {"k": "data", "d": "dl", "es": [["id", "lb_deep"]]},
+                     {"k": "if", "c": ["id", "kx_deep"], "t": [db(L(0x11))], "e": [db(L(0x22))]},
+                     {"k": "data", "d": "dw", "es": [["bin", "+", ["id", "ke_deep"], L(1)]]}]
+            ir = [{"k": "const", "n": "kx_deep", "e": L(0), "eager": True}, {"k": "const", "n": "ke_deep", "e": L(0x7777), "eager": False},
+                  {"k": "org", "a": 0x028000}, {"k": "label", "n": "lb_deep"}, db(L(0xEE)),
+                  {"k": "block", "b": [{"k": "const", "n": "kx_deep", "e": L(0x33), "eager": True}, {"k": "const", "n": "ke_deep", "e": L(0x1234), "eager": False},
+                                       db(L(0xDD)), {"k": "label", "n": "lb_deep"}] + twins.nest(depth - 1, inner, kinds)},
+                  db(["id", "kx_deep"])]
+            cases.append({"rom": "low", "files": {}, "ir": ir, "twin_seed": depth})
+    return {"units": [{"cases": cases[i::8]} for i in range(8)], "exhaustive": False}
 
 
 def unit_cases(unit):
